@@ -136,6 +136,14 @@ def run(ctx):
                     r2.register(vendor_classes[n])
                 got = r2.match(hw, None)
                 choices.append(got.NAME if got is not None else "generic")
+            # registration history with lookups in between: resolve after every single registration (the answer may only depend on
+            # the set of vendors registered at that moment, so the last answer must be the one of the full registry)
+            r3 = Registry()
+            last = None
+            for n in list(reversed(perm)) + others:
+                r3.register(vendor_classes[n])
+                last = r3.match(hw, None)
+            choices.append(last.NAME if last is not None else "generic")
         recs.append({"id": "model-%d" % len(recs), "kind": "model", "label": label, "model": model, "hits": hits, "seqs": [list(s) for s in seqs],
                      "trueFull": true_full, "cands": cands, "choices": choices})
         ctx.count()
@@ -144,6 +152,7 @@ def run(ctx):
     ctx.sample({"sequence": recs[5]["label"], "model": recs[5]["model"], "true": recs[5]["trueFull"], "vendor_choices": sorted(set(recs[5]["choices"]))})
     # ---- loadability: every model x software shape, two fresh providers
     shapes = SOFT_SHAPES if not quick else SOFT_SHAPES[:3]
+    shared = DefaultRulebookProvider()          # one provider serving every model in turn (as a long-running process does)
     for label, model in allm:
         for soft in shapes:
             hw = E.hwview(model, soft)
@@ -155,7 +164,7 @@ def run(ctx):
             try:
                 rb1 = DefaultRulebookProvider().get_rulebook(hw)
                 rb2 = DefaultRulebookProvider().get_rulebook(hw)
-                rec["equalTwice"] = digest(canon(rb1)) == digest(canon(rb2))
+                rec["equalTwice"] = digest(canon(rb1)) == digest(canon(rb2)) == digest(canon(shared.get_rulebook(hw)))
                 rec["unresolved"], rec["badregex"] = audit(rb1)
             except Exception as e:
                 rec["ok"] = False
